@@ -229,6 +229,43 @@ func checkC04(c *Ctx, w *World) {
 		}
 	}
 	c.floor("C04.pair", nEffects, 2)
+	// no report of a pool connection is dropped: once the connection was found in the state map, every way to a return
+	// has stored the reported state (or removed the entry) and called the evaluator — a report that is acted upon
+	// (Connect on IDLE) but not recorded leaves the map, the counters and the picker on the previous state
+	if oldLookup != nil && rtCall != nil {
+		var recs []ssa.Instruction
+		for _, a := range pl.ai.ByFn[fn] {
+			if a.Field != "gcpBalancer.scStates" || !a.isWrite() {
+				continue
+			}
+			switch x := a.Instr.(type) {
+			case *ssa.MapUpdate:
+				if x.Key == sc && isS(x.Value) {
+					recs = append(recs, x)
+				}
+			case *ssa.Call:
+				if x.Call.Args[1] == sc {
+					recs = append(recs, x)
+				}
+			}
+		}
+		okAll, wit := true, ""
+		for _, r := range returnsOf(fn) {
+			if !mayPrecede(oldLookup, r) {
+				continue
+			}
+			rec := cs.False()
+			for _, x := range recs {
+				rec = cs.Or(rec, cs.Reach(x))
+			}
+			bad := cs.And(cs.Reach(oldLookup), cs.Reach(r), A("known"), cs.Not(cs.And(rec, cs.Reach(rtCall))))
+			if cs.Satisfiable(bad) {
+				okAll, wit = false, p.ipos(r)+": "+cs.assignment(bad)
+			}
+		}
+		c.check(okAll, "C04.pair", "every report of a pool connection is recorded", p.ipos(oldLookup), "known ⇒ every way to a return passes a store of the reported state (or the removal of the entry) and the evaluator call",
+			"a report of a pool connection can return without being recorded and counted (return at "+wit+")")
+	}
 
 	// ---- premise: "completing a refresh does not perturb it" — the take-over rules of C07 (the replacement is unregistered,
 	// so its later reports are handled as reports of a pool connection and it cannot be swapped in twice)
@@ -339,6 +376,18 @@ func checkC04(c *Ctx, w *World) {
 		c.check(bad == "", "C04.picker", "gcpPicker.Pick never fails fast", p.pos(pl.pick.Pos()), "no function reachable from gcpPicker.Pick refers to ErrTransientFailure", "a pool picker (published with a non-TRANSIENT_FAILURE state) can return the transient-failure error: "+bad)
 	}
 
+	// ---- C04.atomic: the decision to publish compares the aggregate before and after this report; both are read, like
+	// every counter and the state map, inside the critical section of the report (C10's lock-set obligations for exactly
+	// these fields) — a previous value read before the lock is taken can be another report's, and a flip goes unpublished
+	importPremisesIf(c, w, "C10", checkC10, []string{"C10.lockset"}, "C04.atomic", func(construct string) bool {
+		for _, f := range []string{"gcpBalancer.state@", "gcpBalancer.scStates@", "gcpBalancer.csEvltr@", "connectivityStateEvaluator.", "gcpBalancer.picker@"} {
+			if strings.HasPrefix(construct, f) {
+				return true
+			}
+		}
+		return false
+	})
+
 	// ---- C04.publish
 	us := pl.ifaceCallSites("balancer.ClientConn.UpdateState")
 	c.floor("C04.publish", len(us), 1)
@@ -387,6 +436,18 @@ func checkC04(c *Ctx, w *World) {
 					}
 				}
 			}
+		}
+		// … and computed from the final tables: the picker's snapshot reads scStates and scRefs, so no write of either
+		// can follow the regeneration in this report (a connection forgotten after the snapshot stays in the published
+		// picker until some other connection changes readiness)
+		if regen != nil {
+			var late []string
+			for _, a := range pl.ai.ByFn[fn] {
+				if (a.Field == "gcpBalancer.scStates" || a.Field == "gcpBalancer.scRefs") && a.isWrite() && mayPrecede(regen, a.Instr) {
+					late = append(late, a.Field+" at "+p.ipos(a.Instr))
+				}
+			}
+			c.check(len(late) == 0, "C04.pair", "picker regenerated after the last table write", p.ipos(regen), "no write of scStates or scRefs can follow regeneratePicker() in UpdateSubConnState", "the picker snapshot is taken before the tables are final: "+strings.Join(late, ", "))
 		}
 		c.check(regen != nil && stOK && pkOK, "C04.publish", construct+": fresh pair", p.ipos(s.Instr),
 			"publishes gb.state (read after the evaluator) and gb.picker (read after regeneratePicker)",
